@@ -377,6 +377,38 @@ def main():
     boolean("extTrailingBytesChecked", bool(re.search(r"if\s*!\s*remainder\.is_empty\(\)\s*\{\s*return\s+Err", fn_body(ext_rs, "deserialize_bytes", "fn:deserialize_bytes"))),
             "extension/types.rs deserialize_bytes refuses a non-empty remainder")
 
+    # ---- codec facts (C15), second batch: strictness of the content parsers, invitation precondition --------
+    kp_rs2 = strip_comments(non_test(read("crates/mdk-core/src/key_packages.rs")))
+    pk = fn_body(kp_rs2, "parse_serialized_key_package", "fn:parse_serialized_key_package")
+    exact = bool(re.search(r"KeyPackageIn::tls_deserialize_exact\s*\(", pk))
+    reader = bool(re.search(r"KeyPackageIn::tls_deserialize\s*\(\s*&mut", pk))
+    checks_rest = bool(re.search(r"is_empty\(\)", pk))
+    if not (exact or reader):
+        raise Missing("kp:deserialize-call")
+    boolean("kpDeserializeExact", exact or (reader and checks_rest),
+            "key_packages.rs parse_serialized_key_package: the whole content must be one KeyPackage (tls_deserialize_exact / remainder check)")
+    w_rs2 = strip_comments(non_test(read("crates/mdk-core/src/welcomes.rs")))
+    pw = fn_body(w_rs2, "parse_serialized_welcome", "fn:parse_serialized_welcome")
+    w_exact = bool(re.search(r"MlsMessageIn::tls_deserialize_exact\s*\(", pw))
+    w_reader = re.search(r"MlsMessageIn::tls_deserialize\s*\(\s*&mut\s+(\w+)\s*\)", pw)
+    if not (w_exact or w_reader):
+        raise Missing("welcome:deserialize-call")
+    w_rest = bool(w_reader and re.search(r"if\s*!\s*" + re.escape(w_reader.group(1)) + r"\.is_empty\(\)\s*\{\s*return\s+Err", pw[w_reader.end():]))
+    boolean("welcomeRejectsTrailing", w_exact or w_rest,
+            "welcomes.rs parse_serialized_welcome: bytes after the MLS message are refused")
+    g_rs = strip_comments(non_test(read("crates/mdk-core/src/groups.rs")))
+    def refuses_empty_relays(body):
+        # an early `return Err(Error::Group(..))` guarded by a condition that mentions `relays` and `is_empty()`
+        for m in re.finditer(r"\bif\b([^{;]*)\{\s*return\s+Err\s*\(\s*Error::Group", body):
+            cond = m.group(1)
+            if "relays" in cond and "is_empty()" in cond:
+                return True
+        return False
+    cg = fn_body(g_rs, "create_group", "fn:create_group")
+    am = fn_body(g_rs, "add_members", "fn:add_members")
+    boolean("inviteRequiresRelay", refuses_empty_relays(cg) and refuses_empty_relays(am),
+            "groups.rs create_group / add_members return Err(Error::Group) when members are invited and the relay set is empty")
+
     # ---- emit -------------------------------------------------------------------------------
     lines = ["/- GENERATED by tools/gen_model.py from the current /repo source — do not edit. -/",
              "namespace MdkVerif.Generated", ""]
